@@ -62,6 +62,16 @@ func genPool(t *rapid.T) []*core.StructSpec {
 	// low required id, non-required field in a higher presence-set word that R/Q require
 	pool = append(pool, &core.StructSpec{Fields: []*core.FieldSpec{{Name: "P_1", ID: 1, Req: core.Required, Type: i32},
 		{Name: "P_64", ID: 64, Req: core.Optional, Type: str}, {Name: "P_255", ID: 255, Type: i32}}})
+	// two types whose fields have the same Go types and schemas that differ only two container levels
+	// down: whichever is used first, the other keeps its own wire types
+	i64 := &core.TypeSpec{Kind: core.KI64}
+	deep := func(inner core.Kind, name string) *core.StructSpec {
+		return &core.StructSpec{Fields: []*core.FieldSpec{
+			{Name: name + "_1", ID: 1, Type: &core.TypeSpec{Kind: core.KList, Elem: &core.TypeSpec{Kind: core.KList, Elem: &core.TypeSpec{Kind: inner, Elem: i32}}}},
+			{Name: name + "_2", ID: 2, Type: &core.TypeSpec{Kind: core.KMap, Key: str, Elem: &core.TypeSpec{Kind: core.KMap, Key: str, Elem: &core.TypeSpec{Kind: inner, Elem: i64}}}},
+		}}
+	}
+	pool = append(pool, deep(core.KList, "DeepL"), deep(core.KSet, "DeepS"))
 	for i := rapid.IntRange(1, 4).Draw(t, "nextra"); i > 0; i-- {
 		pool = append(pool, core.GenStruct(t, cfg))
 	}
